@@ -42,8 +42,9 @@ ASSUMPTIONS = [
     'cannot masquerade as a persistence defect; equality is between loaded and original',
     'for circular blocks "same value" is within 2 x q/(1-q) x tolerance (a loaded model '
     'iterates from blank, the original from its previous values)',
-    'a load target is name.ext for an ext the last successful save wrote, or the bare name when '
-    'the file from_file prefers was written by the last successful save',
+    'a load target is name.ext for an ext the last successful save wrote, or the bare name '
+    '(from_file then has to read the file of that name that was written last, whatever types '
+    'the earlier saves wrote) unless the newest file of that name is what a failed save left',
     'crash model: a failure surfaced at a file call, file system contents as they are at that '
     'instant; no power-loss model (pycel never syncs)',
     'only user keys of extra_data are compared (to_file adds its own keys to that dict)',
@@ -470,10 +471,14 @@ def run_case(case):
                 f = files.get(name, {})
                 ext = op.get('ext')
                 if ext is None:
-                    first = next((e for e in ('pkl', 'yml', 'json')
-                                  if os.path.exists(base_path(name) + '.' + e)), None)
+                    # from_file(name) reads the file of that name which was written last
+                    first = max((e for e in ('pkl', 'yml', 'json')
+                                 if os.path.exists(base_path(name) + '.' + e)),
+                                key=lambda e: os.path.getmtime(base_path(name) + '.' + e),
+                                default=None)
                     if first is None or f.get(first) != last_good[name]:
-                        count('probe:skipped-bare-name-would-pick-a-file-of-an-older-save')
+                        # (the newest file is what a failed save left behind)
+                        count('probe:skipped-bare-name-would-pick-a-file-of-a-failed-save')
                         continue
                     target = base_path(name)
                     picked = first
